@@ -101,11 +101,28 @@ PROPS = {
                  "Timestamp; distinct by case hash."),
         "jobs": [{"run": "^TestC12", "shards": 32, "timeout_quick": 600, "timeout_thorough": 3000}],
     },
+    "C04": {
+        "rule": ("targets: a catalog of 43 representative types (every leaf kind, packed/fixed/counted/proto slices, maps incl. struct keys and "
+                 "pointer values, nested and recursive structs, both time codecs, null types) plus generated types (as C01). Inputs: (1) exhaustive: "
+                 "every string of length <=4 (quick) / <=5 (thorough) over the alphabet {00 01 02 03 05 07 08 0a 0b 0d 10 12 1a 7f 80 ff} against "
+                 "every catalog type in two configs; (2) every prefix of reference encodings of generated values; (3) rapid-driven structural "
+                 "mutations of reference encodings (truncation, bit flips, hostile bytes, length/count fields replaced by boundary varints up to "
+                 "2^64-1 and over-long ones, wire-type changes, splices, appended garbage) and raw random bytes; (4) thorough: native go fuzzing. "
+                 "Each input is decoded by Unmarshal into a fresh target and by Descriptor.Read with a JSONOutput. Oracle: returns value or "
+                 "error - no panic / fault (recovered with SetPanicOnFault), no hang (watchdog, confirmed in an isolated re-run), input unchanged, "
+                 "bytes allocated <= 64KiB + (8*largest element size+64)*len(input) (512*len for the descriptor walk), and the same bytes followed "
+                 "by different trailing garbage (and with cap==len) give the identical outcome (read containment). Non-trivial = input of >=2 "
+                 "bytes that decodes successfully or derives from a valid encoding; enumerated inputs distinct by construction, others by hash."),
+        "jobs": [
+            {"run": "^TestC04(Mutated|Prefixes)$", "shards": 32, "timeout_quick": 600, "timeout_thorough": 3000},
+            {"run": "^TestC04Exhaustive$", "shards": 16, "quick_shards": 4, "timeout_quick": 600, "timeout_thorough": 3000},
+        ],
+    },
 }
 
 # Properties not (yet) claimed, with the reason. Kept current by hand.
 NOT_APPLICABLE = {p: "check not built yet in this commit (work in progress; the technique applies, see DESIGN.md)" for p in
-                  ["C04", "C07", "C08", "C13", "C14", "C15", "C16", "C17", "C19", "C20"]}
+                  ["C07", "C08", "C13", "C14", "C15", "C16", "C17", "C19", "C20"]}
 
 # commits in /repo that add build-tag-guarded hooks
 HOOK_COMMITS = []
